@@ -378,7 +378,11 @@ func (ck *checker) compareObs(r *tsm1.TSMReader, exp *obs, stepNo int, what stri
 		ct := r.Contains(c.keys[k])
 		gotSeek = append(gotSeek, s)
 		gotCont = append(gotCont, ct)
-		if s != exp.Seek[k-1] {
+		wantSeek := exp.Seek[k-1]
+		if !pristine && len(exp.SeekImpl) == len(exp.Seek) {
+			wantSeek = exp.SeekImpl[k-1] // after deletes Seek is compared with the transcription (drift only)
+		}
+		if s != wantSeek {
 			seekOK = false
 		}
 		if ct != exp.Contains[k-1] {
